@@ -110,6 +110,10 @@ func (x *Exec) verify(con *Contract) (fres *FuncResult) {
 		v := x.freshTyped(st, "fv_"+fv.Name(), fv.Type())
 		bind = append(bind, v)
 		env[fv.Name()] = v
+		if v.K == kPtr {
+			// a free variable is the address of a captured variable: never nil
+			x.assume(st, Neq(v.L.Base, IntLit(0)), "captured variable address non-nil")
+		}
 		// free variables are pointers to the captured variables; spec names refer to their contents
 	}
 	// A7: receiver non-nil ; A2: pointer parameters of the same type are distinct objects
